@@ -217,6 +217,56 @@ def run_auth(rep, rng, n, sb):
     return rows, found
 
 
+def run_config_creds(rep, rng, n, sb):
+    """The real Config on mirror.list files in which one URL appears in several deb lines, with and without
+    credentials, plus an auth.conf: the credentials used for a line's codename are those written in THAT
+    line's URL, else the auth.conf match for the URL, else none."""
+    from apt_mirror.config import Config
+    found = False
+    d = sb / "cfgcreds"
+    for i in range(n):
+        if d.exists():
+            shutil.rmtree(d)
+        d.mkdir(parents=True)
+        hosts = rng.sample(["h1", "h2", "h3"], rng.randint(1, 2))
+        lines, want = [], {}
+        suites = ["stable", "testing", "unstable", "oldstable", "sid", "exp"]
+        rng.shuffle(suites)
+        auth_lines = []
+        netrc = {}
+        for h in hosts:
+            if rng.random() < 0.6:
+                netrc[h] = (f"nr{h}", f"{SECRET}-{h}")
+                auth_lines.append(f"machine https://{h}/debian login nr{h} password {SECRET}-{h}")
+        for h in hosts:
+            for _ in range(rng.randint(1, 3)):
+                if not suites:
+                    break
+                cn = suites.pop()
+                cred = rng.choice([None, None, ("alice", "pw1"), ("bob", "pw2")])
+                ui = "" if cred is None else f"{cred[0]}:{cred[1]}@"
+                lines.append(f"deb https://{ui}{h}/debian {cn} main")
+                want[(h, cn)] = cred if cred is not None else netrc.get(h)
+        (d / "auth.conf").write_text("\n".join(auth_lines) + "\n")
+        (d / "mirror.list").write_text(f"set etc_netrc {d}/auth.conf\n" + "\n".join(lines) + "\n")
+        cfg = Config(d / "mirror.list", str(d / "base"))
+        got = {}
+        for r in cfg.repositories.values():
+            for cn in r.codenames:
+                got[(r.url.hostname, cn)] = (r.url.username, r.url.password) if (r.url.username or r.url.password) else None
+        rep.case(("config_creds", len(lines), len(auth_lines), len({l.split()[1] for l in lines})),
+                 sample={"lines": [l.replace(SECRET, "<secret>") for l in lines], "auth_entries": len(auth_lines)})
+        rep.count("config_creds")
+        if got != want:
+            found = True
+            bad = sorted(k for k in set(got) | set(want) if got.get(k) != want.get(k))[:3]
+            rep.violation(f"credentials per deb line differ from the rule (URL credentials of that line, else auth.conf, else none): "
+                          + "; ".join(f"{k}: used {got.get(k)}, expected {want.get(k)}" for k in bad).replace(SECRET, "<secret>"),
+                          {"kind": "oracle", "tie": "config_creds", "case": {"lines": lines, "auth": auth_lines}},
+                          tags={"oracle": "config_creds"})
+    return found
+
+
 def run_printers(rep, rng, n):
     from apt_mirror.download.url import URL
     from apt_mirror.repository import Repository
@@ -356,6 +406,7 @@ def run(rep: C.Report):
         rows, found = run_auth(rep, rng, 500 if rep.tier == "quick" else 12000, sb)
         prow, f2 = run_printers(rep, rng, 300 if rep.tier == "quick" else 6000)
         f2 |= run_taint(rep, random.Random(rep.seed + 2020), 6 if rep.tier == "quick" else 150)
+        f2 |= run_config_creds(rep, random.Random(rep.seed + 2021), 60 if rep.tier == "quick" else 2000, sb)
     finally:
         shutil.rmtree(sb, ignore_errors=True)
     header = HEADER + COQ_DEFS
